@@ -102,43 +102,50 @@ def cursor_rule(ctx):
     if tp:
         f = tp[0]
         fields = ("cur_index", "line", "utf16_col")
-        saved = {}   # field -> token that identifies where it was saved
-        for n in sir.walk(f.body):
-            if n.get("k") == "local" and n.get("init") is not None:
-                ini = n["init"]
-                if ini.get("k") == "field" and sir.expr_str(ini["base"]) == "self" and n["pat"].get("k") == "p_ident":
-                    saved[ini["name"]] = n["pat"]["name"]
-                elif ini.get("k") == "tuple" and n["pat"].get("k") == "p_ident":
-                    for i_, e_ in enumerate(ini["elems"]):
-                        if e_.get("k") == "field" and sir.expr_str(e_["base"]) == "self":
-                            saved[e_["name"]] = "%s.%d" % (n["pat"]["name"], i_)
-                elif ini.get("k") == "tuple" and n["pat"].get("k") == "p_tuple":
-                    for pe, e_ in zip(n["pat"]["elems"], ini["elems"]):
-                        if e_.get("k") == "field" and sir.expr_str(e_["base"]) == "self" and pe.get("k") == "p_ident":
-                            saved[e_["name"]] = pe["name"]
-        restored = {}
-        restore_nodes = []
-        for n in sir.walk(f.body):
-            if n.get("k") == "assign":
-                l, r = n["l"], n["r"]
-                if l.get("k") == "field" and sir.expr_str(l["base"]) == "self":
-                    restored[l["name"]] = sir.expr_str(r)
-                    restore_nodes.append(n)
-                elif l.get("k") == "tuple":
-                    rs = sir.expr_str(r)
-                    for i_, e_ in enumerate(l["elems"]):
-                        if e_.get("k") == "field" and sir.expr_str(e_["base"]) == "self":
-                            restored[e_["name"]] = "%s.%d" % (rs, i_) if r.get("k") == "path" else (sir.expr_str(r["elems"][i_]) if r.get("k") == "tuple" and i_ < len(r["elems"]) else "?")
-                    restore_nodes.append(n)
-        ok = all(saved.get(x) and restored.get(x) == saved.get(x) for x in fields)
-        # restored exactly when the closure's result is None
-        G = gd.guards_of(f.body)
-        res_names = set(n["pat"]["name"] for n in sir.walk(f.body) if n.get("k") == "local" and n["pat"].get("k") == "p_ident" and n.get("init") is not None and n["init"].get("k") == "call" and sir.expr_str(n["init"]["f"]) in f.param_names())
-        m_res = lambda e: (e.get("k") == "call" and sir.expr_str(e["f"]) in f.param_names()) or (sir.strip_ref(e).get("k") == "path" and sir.strip_ref(e).get("s") in res_names) or any(x.get("k") == "path" and x.get("s") in res_names for x in sir.walk(e))
-        states = [gd.option_state(G.get(id(n), []), m_res) for n in restore_nodes]
-        ok = ok and bool(restore_nodes) and all(st_ == "none" for st_ in states)
-        obs.append(ob("C16.cursor/try_parse", ok, ctx.where(f), "saved %s, restored %s when the attempt returned %s" % (saved, restored, states),
-                      witness=None if ok else "a failed look-ahead across a line break leaves line/column ahead of the index"))
+        # the attempt is interpreted abstractly (lib/absint.py): the three fields start as tokens, the closure moves all of them
+        # and returns None or Some; afterwards they must be back at the tokens exactly when it returned None
+        import absint as ai
+        params = [x for x in f.param_names() if x and x != "self"]
+
+        def hooks(it, e, st):
+            if e.get("k") == "call" and e["f"].get("k") == "path" and len(e["f"]["segs"]) == 1 and e["f"]["segs"][0] in params:
+                moved = st
+                for fld in fields:
+                    moved = moved.set("$f:" + fld, "moved:" + fld)
+                return [(ai.NONE, moved.event(("attempt", "none"))), (("Some", ai.FREE), moved.event(("attempt", "some")))]
+            return None
+        it = ai.Interp(hooks=hooks, idx=tc)
+        it.field_vars = set(fields)
+        env = {"self": ai.FREE}
+        for fld in fields:
+            env["$f:" + fld] = "start:" + fld
+        for x in params:
+            env[x] = ai.FREE
+        try:
+            outs = [o for o in it.run(f.body, env) if ("$error-exit",) not in o.events]
+        except ai.TooManyPaths:
+            outs = []
+        verdict, d = True, []
+        if not outs or not any(ev[0] == "attempt" for o in outs for ev in o.events):
+            verdict = None
+            d.append("the attempt is not called in a form this rule reads")
+        for o in outs:
+            att = [ev[1] for ev in o.events if ev[0] == "attempt"]
+            if len(att) != 1:
+                continue
+            final = {fld: o.st.env.get("$f:" + fld) for fld in fields}
+            want = {fld: ("start:" if att[0] == "none" else "moved:") + fld for fld in fields}
+            if final != want:
+                wrong = sorted(fld for fld in fields if final[fld] != want[fld])
+                if o.tainted or any(ai.is_unknown(final[fld]) for fld in wrong):
+                    verdict = None if verdict is not False else False
+                else:
+                    verdict = False
+                d.append("attempt returned %s: %s %s" % (att[0], wrong, "not restored" if att[0] == "none" else "overwritten although the attempt succeeded"))
+            else:
+                d.append("attempt returned %s: %s" % (att[0], "all three fields restored" if att[0] == "none" else "fields keep the new position"))
+        obs.append(ob("C16.cursor/try_parse", verdict, ctx.where(f), "; ".join(d),
+                      witness=None if verdict is not False else "a failed look-ahead across a line break leaves line/column ahead of the index"))
     pos = [f for f in tc.fns if f.name == "position" and f.base == "ParseState" and f.body]
     if pos:
         flds = {}
